@@ -120,7 +120,7 @@ def cases(tier, seed):
 def _heavy(c):
     b = c["circuit"]["base"]
     ops = c["circuit"]["ops"]
-    if b.get("algo") == "qt" and b.get("input") == "cat-softmax" and ops[0][0] == "multiply_other":
+    if b.get("algo") == "qt" and b.get("input") == "cat-softmax" and ops[0][0] in ("multiply_other", "square"):
         return True  # product of two softmax-normalised quad trees: 420 s case timeout in the quick budget
     if b.get("input") == "gaussian" and [o[0] for o in ops] == ["square", "square"]:
         return True  # fourth power of a Gaussian mixture: the exponent lemmas do not close it (inconclusive)
